@@ -551,6 +551,30 @@ def descriptor_text(recipe, seeds):
     return text
 
 
+def _tree_leaf_texts(tr_text: str) -> list[str]:
+    """the leaf expressions of a tr(KEY,TREE) descriptor text, left to right"""
+    tree = tr_text[tr_text.index(",") + 1 : -1]
+    leaves, depth, start = [], 0, None
+    for pos, ch in enumerate(tree):
+        if ch == "(":
+            depth += 1
+        elif ch == ")":
+            depth -= 1
+        if depth == 0 and ch in "{},":
+            if start is not None:
+                leaves.append(tree[start:pos])
+                start = None
+        elif start is None:
+            start = pos
+    if start is not None:
+        leaves.append(tree[start:])
+    return leaves
+
+
+class HarnessErrorInWorld(Exception):
+    """a fault of the harness met inside a stage (re-raised as the runner's HarnessError)"""
+
+
 class _Refusal(Exception):
     def __init__(self, stage, error):
         super().__init__(stage)
@@ -569,6 +593,17 @@ class _Stage:
 
     def __exit__(self, exc_type, exc, _tb):
         if exc is not None and not isinstance(exc, _Refusal) and isinstance(exc, Exception):
+            from btclib.exceptions import BTClibRuntimeError, BTClibTypeError, BTClibValueError
+            from vlib.runner import HarnessError, _through_btclib
+
+            # harness code runs inside the stages too (callbacks, look-ups by position): an exception that is not the library's and never passed
+            # through a library frame is a fault of the harness, not a refusal by the library
+            if isinstance(exc, HarnessErrorInWorld):
+                raise HarnessError(f"{self.name}: {exc}") from exc
+            if not isinstance(exc, (HarnessError, BTClibValueError, BTClibTypeError, BTClibRuntimeError)) and _through_btclib(exc.__traceback__) is None:
+                raise HarnessError(f"{self.name}: {exc_type.__name__}: {exc}") from exc
+            if isinstance(exc, HarnessError):
+                return False
             raise _Refusal(self.name, f"{exc_type.__name__}: {exc}") from exc
         return False
 
@@ -671,8 +706,13 @@ def run_world(case):
 
         def chosen_leaf_hash(psbt_, i):
             """The tapleaf hash of the leaf the case spends: leaves come left to right."""
-            leaves = list(in_descs[i].taproot_leaf_scripts(inputs[i]["index"]).values())
-            script, version = leaves[inputs[i]["spend_leaf"]]
+            # (found by the leaf's own script, compiled alone under a one-leaf tree: the order taproot_leaf_scripts lists the leaves in is not promised)
+            text = descriptor_text(inputs[i], seeds)
+            leaf_text = _tree_leaf_texts(text)[inputs[i]["spend_leaf"]]
+            alone = parse(add_checksum(f"tr({text[3:text.index(',')]},{leaf_text})"))
+            (script, version), = alone.taproot_leaf_scripts(inputs[i]["index"]).values()
+            if (script, version) not in in_descs[i].taproot_leaf_scripts(inputs[i]["index"]).values():
+                raise HarnessErrorInWorld("the chosen leaf, compiled alone, is not among the descriptor's leaf scripts")
             return leaf_hash(version, script)
 
         def spend_context(psbt_in, tx_, i):
